@@ -439,7 +439,7 @@ func (eng *Engine) emitGlobalAxioms(g *Gen) {
 		n := len(g.sc.lines)
 		t, err := env.formula(ax.Body)
 		if err != nil {
-			g.sc.lines = g.sc.lines[:n]
+			g.sc.truncate(n)
 			continue
 		}
 		g.sc.emit("(assert %s)", t)
@@ -504,7 +504,7 @@ func (eng *Engine) locationTags(g *Gen, ct *Contract, c *ssa.CallCommon, loc str
 		return nil, true
 	}
 	nl := len(g.sc.lines)
-	defer func() { g.sc.lines = g.sc.lines[:nl] }()
+	defer func() { g.sc.truncate(nl) }()
 	tags := map[string]bool{}
 	if cc, ok := x.(*ECall); ok && (cc.Fn == "contents" || cc.Fn == "elems") {
 		v, err := env.eval(cc.Args[0])
